@@ -10,8 +10,8 @@
     '&' / '<' (literal or as character reference) in entity literals; [doc_wf] = the entities are
     declared before the attribute-list declarations, the table is [wf_table], every literal refers to
     declared entities -- i.e. the document is well-formed.  Ill-formed documents are refused by the
-    model and the specification alike ([cycle_refused] in Proofs/AttrExamples.v is an instance); that the
-    two refusals coincide on every ill-formed document is checked by the correspondence, not proved.
+    model and the specification alike: [attribute_set_refines_all] proves that the two refusals coincide
+    ([cycle_refused], [dtd_bad_refused] in Proofs/AttrExamples.v are instances).
 
     Findings that stay:
       D36  [#REQUIRED] attributes that are not written are materialised with an empty value
@@ -20,7 +20,7 @@
            not re-scanned  -> [KnownEsc] *)
 From Coq Require Import List NArith Bool.
 From XmlRs Require Import Base.CPred Spec.AttrNorm Model.AttrModel
-  Proofs.AttrTokenProofs Proofs.AttrNormProofs Proofs.AttrSetProofs Proofs.AttrExamples.
+  Proofs.AttrTokenProofs Proofs.AttrNormProofs Proofs.AttrSetProofs Proofs.AttrWfProofs Proofs.AttrExamples.
 Open Scope N_scope.
 
 (** *** normalized value: the model computes the XML 1.0 normalized value, for every entity table without
@@ -73,6 +73,28 @@ Theorem attribute_set_refuted :
     model_attrs d el written <> map_ares (map of_item) (spec_attrs d el written).
 Proof. exact attribute_set_refuted_proof. Qed.
 
+(** *** ... and for EVERY document whose entity literals are free of '&' / '<' and which does not redeclare a
+    predefined entity -- well-formed or not: the checks made when the document is built ([check_entity_ref])
+    accept exactly the literals the specification can expand, so both sides refuse the same documents, and
+    on the accepted ones the attribute sets are equal (outside [Known36]) *)
+Theorem build_checks_refine : forall T lit, simple_table T -> m_refs_found T lit = lit_expands T lit.
+Proof. exact literal_checks_agree. Qed.
+
+Theorem attribute_set_refines_all : forall d el written,
+  simple_table (entities_of d) -> predefined_free (entities_of d) -> no_ns_defs d el -> Known36 d el written = false ->
+  model_attrs d el written = map_ares (map of_item) (spec_attrs d el written).
+Proof. exact attribute_set_refines_all_proof. Qed.
+
+(** a value is right as soon as the entities its literal reaches can be expanded ([good]), whatever else
+    the table contains *)
+Theorem normalized_value_refines_good : forall T ty lit,
+  simple_table T -> (forall n, In n (refs_of lit) -> good T n) -> model_value T ty lit = spec_value T ty lit.
+Proof. exact value_refines_good. Qed.
+
+(** the fuel of the model is a proof device only: it never runs out, on any table (the Rust terminates) *)
+Theorem model_never_out_of_fuel : forall T ty lit, model_value T ty lit <> Recursion.
+Proof. exact model_value_total. Qed.
+
 Theorem double_escape_refuted :
   exists dtd ty lit, KnownEsc dtd = true /\ model_value dtd ty lit <> spec_value dtd ty lit.
 Proof. exact double_escape_refuted_proof. Qed.
@@ -90,5 +112,9 @@ Print Assumptions tokenization_refines.
 Print Assumptions tokenized_sound.
 Print Assumptions attribute_set_refines.
 Print Assumptions attribute_set_refuted.
+Print Assumptions build_checks_refine.
+Print Assumptions attribute_set_refines_all.
+Print Assumptions normalized_value_refines_good.
+Print Assumptions model_never_out_of_fuel.
 Print Assumptions double_escape_refuted.
 Print Assumptions specified_agree.
